@@ -115,7 +115,20 @@ def _conv_kind(interp_model, v, opaque_names):
     """Classify a converter value: 'none' | 'to-serial' | 'to-date' | 'zero' | 'other:<repr>'."""
     if isinstance(v, Const) and v.value is None:
         return 'none'
-    from ..absint import DispatchV
+    from ..absint import DispatchV, Bound
+    # the two date converters are recognised as the values the module binds to those names (plain functions, a generic
+    # function, class methods behind module-level aliases ...)
+    for um in [mm for mm in interp_model.modules.values() if 'serialize_date' in mm.functions and 'parse_date' in mm.functions]:
+        it0 = Interp(interp_model)
+        for nm, kind in (('serialize_date', 'to-serial'), ('parse_date', 'to-date')):
+            try:
+                ref = it0.module_value(um, nm)
+            except Exception:
+                ref = None
+            if ref is not None and k(ref) == k(v):
+                return kind
+    if isinstance(v, Bound):
+        v = v.func
     if isinstance(v, (Func, DispatchV)):
         if v.name == 'serialize_date':
             return 'to-serial'
@@ -582,7 +595,7 @@ def _to_number(model, res, opaque, R='R9'):
 def _pre1900(model, res, opaque, E):
     cands = [(m, m.functions['parse_date']) for m in model.modules.values() if 'parse_date' in m.functions]
     m, f = cands[0]
-    fv = Func(m, f)
+    fv = Interp(model).module_value(m, 'parse_date') or Func(m, f)       # as the module binds the name (alias of a class method ...)
     outs = H.run_function(model, fv, lambda: [Sym('float', 's')])
     neg = [o for o in outs if any(isinstance(s, Atom) and s.op == 'lt' and isinstance(s.args[1], Const) and s.args[1].value == 0
                                   and alt is True for (t, alt, s) in o.notes)]
